@@ -98,7 +98,19 @@ def ref_locator(loc):
     from urllib.parse import unquote_to_bytes
     if isinstance(loc, str):
         return [ts.tlv(8, unquote_to_bytes(p)) for p in loc.strip('/').split('/')]
-    return [ts.tlv(8, x.encode('utf-8')) if isinstance(x, str) else bytes(x) for x in loc]
+    import re
+    conv = {'seg': 0x32, 'off': 0x34, 'v': 0x36, 't': 0x38, 'seq': 0x3A}
+
+    def text(x):
+        # a text element is one component in URI syntax: a naming-convention shorthand, '<type>=<value>', or a generic value
+        m = re.match(r'^(seg|off|v|t|seq)=(\d+)$', x)
+        if m:
+            return ts.tlv(conv[m.group(1)], ts.uint(int(m.group(2))))
+        m = re.match(r'^(\d+)=(.*)$', x)
+        if m:
+            return ts.tlv(int(m.group(1)), unquote_to_bytes(m.group(2)))
+        return ts.tlv(8, unquote_to_bytes(x))
+    return [text(x) if isinstance(x, str) else bytes(x) for x in loc]
 
 
 def check_cert(wire, key_name, issuer_comp, pub, issuer_kind, loc, nb: dt.datetime, na: dt.datetime, version_ms, tag):
@@ -187,6 +199,8 @@ def derive_cases(tier):
         yield {'f': 'derive', 'kn': 'text', 'iid': 'str', 'subj': 'ec256_1', 'iss': iss, 'start': STARTS[3], 'dur': 3600, 'it': 0, 'text': True}
     for f in ('self', 'req'):
         yield {'f': f, 'kn': 'text', 'subj': 'ec256_1', 'iss': 'ed', 'now': '2024-02-29T12:00:00+00:00', 'it': 0, 'text': True}
+    for iss in ('ed', 'ecdsa', 'rsa'):
+        yield {'f': 'derive', 'kn': 'ident1-id0', 'iid': 'str', 'subj': 'ec256_1', 'iss': iss, 'start': STARTS[3], 'dur': 3600, 'it': 0, 'typedtext': True}
     # W: public keys whose DER encoding begins / ends with an octet that is white space in ASCII (the last octet of an EC point is any
     #    value); instants with a sub-second part and durations that are not whole seconds
     for ws in (b'\x0a', b'\x20', b'\x09', b'\x0d'):
@@ -290,6 +304,10 @@ def run_case_inner(case):
             pass
     if case.get('text'):
         loc = ['issu\u00e9r', 'k \u00e9', 'KEY', ts.tlv(8, b'\x01')]
+        signer.key_locator_name = list(loc)
+    if case.get('typedtext'):
+        # the locator as a list of text elements, some of them typed: a version, a segment number, an explicit type number, an escape
+        loc = ['issuer', 'KEY', '%01', 'self', 'v=7', 'seg=300', '32=abc', 'x%2Fy']
         signer.key_locator_name = list(loc)
     tag = case['f']
     version_ms = 1_700_000_123_456
